@@ -5,6 +5,8 @@ abstract (bit dependencies / tokens); only finite control inputs are fixed by th
 (the "mode"). Unknown branches run both successors to the immediate post-dominator and merge.
 """
 import itertools
+import os
+import time
 
 from . import bits as B
 from .bits import C0, C1
@@ -13,6 +15,7 @@ from .values import (BV, Term, HF, HF0, Struct, Enum, Ite, Ref, Seq, Tok, Top, F
                      TRUE, FALSE, boolv, SIGMA, V)
 
 EXIT = -1
+GLOBAL_DEADLINE = [None]
 
 
 class Undecided(Exception):
@@ -27,11 +30,12 @@ class ForkReq(object):
 
 
 class State(object):
-    __slots__ = ('store', 'pc')
+    __slots__ = ('store', 'pc', 'exited')
 
     def __init__(self, store, pc=()):
         self.store = store
         self.pc = pc
+        self.exited = False
 
     def copy(self):
         return State(dict(self.store), self.pc)
@@ -67,6 +71,8 @@ class Interp(object):
         self.exec_sites = set()
         self.regex_patterns = []
         self.bulk_by_ref_as_exists = True
+        self.deadline = None
+        self.budget_s = int(os.environ.get('VF_CALL_BUDGET_S', '90'))
         self.hash_names = {}      # const name suffix -> sym
         self.trace = False
         from . import summaries
@@ -76,6 +82,43 @@ class Interp(object):
     # ------------------------------------------------------------------ helpers
     def ev(self, kind, fn, at, detail=None):
         self.events.append((kind, fn, at, detail))
+
+    def loopinfo(self, body):
+        """block -> header of its innermost natural loop (None outside loops); header -> set of body blocks"""
+        k = ('loops', id(body))
+        r = self._ipdom.get(k)
+        if r is not None:
+            return r
+        from .program import dominators
+        dom = dominators(body)
+        n = len(body['blocks'])
+        loops = {}
+        for u in range(n):
+            if body['blocks'][u].get('cleanup'):
+                continue
+            for h in successors(body['blocks'][u]['term']):
+                if h in dom[u]:
+                    # natural loop of back edge u -> h
+                    bodyset = loops.setdefault(h, {h})
+                    stack = [u]
+                    while stack:
+                        x = stack.pop()
+                        if x in bodyset:
+                            continue
+                        bodyset.add(x)
+                        for p in range(n):
+                            if x in successors(body['blocks'][p]['term']) and not body['blocks'][p].get('cleanup'):
+                                stack.append(p)
+        inner = {}
+        for b in range(n):
+            best = None
+            for h, bs in loops.items():
+                if b in bs and (best is None or len(bs) < len(loops[best])):
+                    best = h
+            inner[b] = best
+        r = (inner, loops)
+        self._ipdom[k] = r
+        return r
 
     def ipdom(self, fname, body):
         k = id(body)
@@ -236,9 +279,13 @@ class Interp(object):
         if s1 is None and s2 is None:
             return None
         if s1 is None:
-            return State(s2.store, forkpc + (B.bnot(c),))
+            r = State(s2.store, forkpc + (B.bnot(c),))
+            r.exited = s2.exited
+            return r
         if s2 is None:
-            return State(s1.store, forkpc + (c,))
+            r = State(s1.store, forkpc + (c,))
+            r.exited = s1.exited
+            return r
         st = {}
         a, b = s1.store, s2.store
         for k in a:
@@ -911,6 +958,17 @@ class Interp(object):
             name, idxs = v.fields
             if isinstance(idx, BV) and idx.known():
                 idx = idx.uval()
+            elif isinstance(idx, BV):
+                unk = [i for i, b in enumerate(idx.bits) if b.kind != 'c']
+                if len(unk) > 3:
+                    raise Undecided('constant table %s indexed by %r' % (name, idx))
+                base = sum(1 << i for i, b in enumerate(idx.bits) if b is C1)
+                out = None
+                for m in range(1 << len(unk)):
+                    val = base | sum((1 << unk[j]) for j in range(len(unk)) if (m >> j) & 1)
+                    r = self.getindex(st, v, BV.const(val, idx.w))
+                    out = r if out is None else self.merge(self.eq_const_bit(idx, val), r, out)
+                return out
             elif not isinstance(idx, Term):
                 raise Undecided('constant table %s indexed by %r' % (name, idx))
             idxs = idxs + (idx,)
@@ -1203,7 +1261,11 @@ class Interp(object):
         """Entry point: interpret local function `fname` on abstract args. Returns (retval, state)."""
         if st is None:
             st = State({}, pc)
-        ret, st = self.call_local(fname, args, st)
+        self.deadline = time.time() + self.budget_s
+        try:
+            ret, st = self.call_local(fname, args, st)
+        finally:
+            self.deadline = None
         return ret, st
 
     def call_local(self, fname, args, st):
@@ -1225,9 +1287,19 @@ class Interp(object):
             raise Undecided('arity mismatch calling %s: %d vs %d' % (fname, len(args), f['argc']))
         for i, a in enumerate(args):
             st.store[(fr.id, i + 1)] = a
+        entry_pc = st.pc
         out = self.exec_region(st, fr, 0, EXIT)
+        if fr.escapes:
+            # early returns taken inside loops: disjoint path conditions relative to the frame entry
+            for pc_e, s_e in fr.escapes:
+                cond = B.bigand(pc_e[len(entry_pc):]) if pc_e[:len(entry_pc)] == entry_pc else None
+                if cond is None:
+                    raise Undecided('early return with an unrelated path condition in %s' % fname)
+                out = self.merge_states(cond, s_e, out, entry_pc)
         if out is None:
             return BOTTOM, None
+        out.exited = False
+        out.pc = entry_pc if not out.pc[:len(entry_pc)] == entry_pc else out.pc
         ret = out.store.get((fr.id, 0), UNIT)
         # free the frame
         for k in [k for k in out.store if k[0] == fr.id]:
@@ -1282,6 +1354,13 @@ class Interp(object):
             self.fuel -= 1
             if self.fuel <= 0:
                 raise Undecided('fuel exhausted in %s' % fr.fname)
+            if (self.fuel & 255) == 0:
+                now = time.time()
+                if self.deadline is not None and now > self.deadline:
+                    raise Undecided('analysis budget (%ds per entry point) exhausted in %s: too many data-dependent paths'
+                                    % (self.budget_s, fr.fname))
+                if GLOBAL_DEADLINE[0] is not None and now > GLOBAL_DEADLINE[0]:
+                    raise Undecided('analysis budget of this check exhausted in %s' % fr.fname)
             blk = blocks[bb]
             self.cur_pc = st.pc
             self.cur_fn = fr.fname
@@ -1299,10 +1378,7 @@ class Interp(object):
             if k == 'goto':
                 bb = t['t']
             elif k == 'return':
-                bb = EXIT
-                if stop != EXIT:
-                    # return inside a region whose join is not the exit cannot happen (ipdom)
-                    return st
+                st.exited = True
                 return st
             elif k == 'unreachable':
                 return None
@@ -1351,9 +1427,19 @@ class Interp(object):
                     if d is not True:
                         fk.st_no.pc = forkpc + (B.bnot(fk.cond),)
                         sb = self.exec_region(fk.st_no, fr, bb, join)
+                    if join != EXIT:
+                        if sa is not None and sa.exited:
+                            fr.escapes.append((sa.pc, sa))
+                            sa = None
+                        if sb is not None and sb.exited:
+                            fr.escapes.append((sb.pc, sb))
+                            sb = None
                     st = self.merge_states(fk.cond, sa, sb, forkpc)
                     if st is None:
                         return None
+                    if join == EXIT:
+                        st.exited = True
+                        return st
                     bb = join
                     continue
                 if st is None:
@@ -1375,25 +1461,38 @@ class Interp(object):
                 if isinstance(d, Top):
                     raise Undecided('switch on Top(%s) in %s at %s' % (d.why, fr.fname, t.get('at')))
                 if isinstance(d, Term):
-                    join = ipd[bb]
-                    if join is None:
-                        join = EXIT
+                    join = self.join_for(fr, bb, ipd)
                     st = self.fork(st, fr, d, t, join)
                     if st is None:
                         return None
+                    if st.exited:
+                        return st
                     bb = join
                     continue
                 if not isinstance(d, BV):
                     raise Undecided('switch on %r in %s' % (d, fr.fname))
-                join = ipd[bb]
-                if join is None:
-                    join = EXIT
+                join = self.join_for(fr, bb, ipd)
                 st = self.fork(st, fr, d, t, join)
                 if st is None:
                     return None
+                if st.exited:
+                    return st
                 bb = join
             else:
                 raise Undecided('terminator %s in %s' % (k, fr.fname))
+
+    def join_for(self, fr, bb, ipd):
+        """Join block of a data-dependent branch: its immediate post-dominator, or - when that lies outside the
+        innermost enclosing loop (an early `return` / `break` makes the function exit the only common successor) -
+        the loop header, so that iterations are not multiplied by the number of earlier early-exit tests."""
+        join = ipd[bb]
+        if join is None:
+            join = EXIT
+        inner, loops = self.loopinfo(fr.fn)
+        h = inner.get(bb)
+        if h is not None and h != bb and (join == EXIT or join not in loops[h]):
+            return h
+        return join
 
     def eq_const_bit(self, d, v):
         if isinstance(d, Term):
@@ -1453,6 +1552,16 @@ class Interp(object):
             results.append((c, r))
         if not results:
             return None
+        if join != EXIT:
+            # branches that left the region by returning from the function are parked as escapes of this frame
+            kept = []
+            for c, r in results:
+                if r is not None and r.exited:
+                    fr.escapes.append((r.pc, r))
+                    kept.append((c, None))
+                else:
+                    kept.append((c, r))
+            results = kept
         # fold: last as default
         acc_c, acc = results[-1]
         out = acc
@@ -1460,10 +1569,12 @@ class Interp(object):
             if out is not None:
                 out.pc = forkpc + (acc_c,)
             return out
+        all_exited = all(r is None or r.exited for _c, r in results) and any(r is not None for _c, r in results)
         for c, r in reversed(results[:-1]):
             out = self.merge_states(c, r, out, forkpc)
         if out is not None:
             out.pc = out.pc if out.pc[:len(forkpc)] == forkpc else forkpc
+            out.exited = all_exited and join == EXIT
         return out
 
     # ------------------------------------------------------------------ calls
@@ -1546,7 +1657,8 @@ class Interp(object):
 
 
 class Frame(object):
-    __slots__ = ('id', 'fname', 'fn', 'is_promoted')
+    __slots__ = ('id', 'fname', 'fn', 'is_promoted', 'escapes')
 
     def __init__(self, id_, fname, fn, is_promoted):
         self.id, self.fname, self.fn, self.is_promoted = id_, fname, fn, is_promoted
+        self.escapes = []
